@@ -12,7 +12,7 @@ CHECKS = {
          "Every fully parenthesised expression tree up to 4 (thorough 5) leaves over a literal ladder (integers, decimals, exponent forms, huge/tiny magnitudes and each percent literal next to its plain twin) and all five operators is evaluated by the real parser+evaluator and compared with an independent exact evaluator run on the generating tree; every operator sequence of length 1..4 (thorough 5) is also written without parentheses and compared with the tree the documented precedence table prescribes; integer exponents far beyond the trees' (to +-999) and integer exponents that are not written as integers (2.0, 20e-1, 200%); exhaustive within the stated bound.",
          "num::BigRational is exact; sizes between the ladder rungs behave like the rungs; blank layout is C06's subject.", "3 C01"),
  "C02": ("exploration", E1 + ": all ordered pairs of a unit-spelling set x {+,-,to} vs dimension vectors of an independent unit table",
-         "Every ordered pair of ~450 (thorough ~1050) unit spellings (all units, prefixed, products/quotients, powered and prefixed-and-powered, spellings that cancel over the same or over different unit names, spellings that contribute/cancel/re-contribute a base) under + - and to, with non-zero and with zero-valued (written and computed) operands, spellings with one unit on both sides of the slash under different powers (m/m^2), computed operands (every a*b/c and a/b*c over ten quantities cast to, added to and subtracted from twelve targets, judged against the reference evaluation of the tree), three-operand chains over plain numbers, quantities in one unit and quantities in an incommensurable unit, a plain number cast twice, every ordered pair of 14 spellings in which one unit name cancels against itself (with and without written powers) under + - and to, plus plain-number adoption in both operand orders: Ok iff the independent table gives equal base dimensions, with exact SI value and the cast result expressed in the target unit.",
+         "Every ordered pair of ~450 (thorough ~1050) unit spellings (all units, prefixed, products/quotients, powered and prefixed-and-powered, spellings that cancel over the same or over different unit names, spellings that contribute/cancel/re-contribute a base) under + - and to, with non-zero and with zero-valued (written and computed) operands, spellings with one unit on both sides of the slash under different powers (m/m^2), computed operands (every a*b/c and a/b*c over ten quantities cast to, added to and subtracted from twelve targets, judged against the reference evaluation of the tree), three-operand chains over plain numbers, quantities in one unit and quantities in an incommensurable unit, a plain number cast twice, powers that differ by a multiple of 2^16 or 2^8, every ordered pair of 14 spellings in which one unit name cancels against itself (with and without written powers) under + - and to, plus plain-number adoption in both operand orders: Ok iff the independent table gives equal base dimensions, with exact SI value and the cast result expressed in the target unit.",
          "Independent unit table (tables.rs); syntactically cancelling spellings (m/m), computed dimensionless operands and prefixed words the tool rejects are not judged.", "3 C02"),
  "C03": ("exploration", E1 + ": commensurable unit pairs, prefixes, powers, composites vs SI scales, plus table-free conversion laws on the real code",
          "All ordered pairs per commensurability class x magnitudes, every prefix spelling, powers -3..3, every prefix symbol crossed with every power -3..3 (as source, as target and prefix-to-prefix; thorough: on every non-offset unit of the table, powers to +-5, 12 magnitudes per pair), 2-4 factor composites, composites naming the same units on both sides with differently distributed powers ratio units with a scale but no dimension (min/hr, ft/mi, l/m^3) and prefixed units that cancel half-way through an expression and return with their power (kN/kN^2, ms^-1*ms^2) against the table; round-trip, via-unit, unparenthesised cast chains and scaling laws evaluated on the real code only (no table).",
@@ -30,7 +30,7 @@ CHECKS = {
          "Every literal of the grammar up to length 7 over a reduced digit alphabet ({0,1,9}; thorough {0,1,5,9}), all ten digits to length 4 (thorough 5), plus 20..300-digit ladder literals, read by both the library parser and the query path and compared with an independent reader; histories in one thread of a string the grammar rejects half-way followed by a literal (17 x 7, through str::parse, two queries, two groups of one query).",
          "Exponent magnitudes > 999 are not judged (exact values with thousands of digits; C11 bounds exponents to 3 digits).", "3 C07"),
  "C08": ("exploration", E1 + ": value grid x every display spec, printed text re-read and judged",
-         "Every value of a rational grid (small p/q, p/q*10^k for k in -40..40, neighbours of powers of ten, numerators and denominators at the machine-word edges 2^k-1, 2^k, 2^k+1 for k=8..128, a tenth of each, 10^18..10^20) under every limit x exponent_limit spec (quick 42, thorough 300), mark on and off; the printed text is re-read by an own reader and must be the truncation toward zero with mark iff something non-zero was cut.",
+         "Every value of a rational grid (small p/q, p/q*10^k for k in -40..40, neighbours of powers of ten, numerators and denominators at the machine-word edges 2^k-1, 2^k, 2^k+1 for k=8..128, a tenth of each, 10^18..10^20) under every limit x exponent_limit spec (quick 56, thorough 314: budgets to 20 crossed with exponent limits, and fourteen budgets from 40 to 257), mark on and off; the printed text is re-read by an own reader and must be the truncation toward zero with mark iff something non-zero was cut.",
          "Magnitudes between grid points behave like the points.", "3 C08"),
  "C10": ("exploration", E1 + ": rational grid x {floor,ceil,round,round(x,n)} vs integer-arithmetic definitions, in release and debug-assertion builds",
          "Every p/q of a grid (|p| <= 40, q <= 8; thorough |p| <= 400, q <= 40; negatives, integers, halves, boundary +-10^-k for k<=7, and integer/half +-10^-k for k in 8..25 at magnitudes 0..2^64) through floor/ceil/round/round(x,n), n=-6..6, two-step histories round(x,n1) then round(y,n2) on one thread for every ordered pair of 20 digit counts up to +-39, values of 40..900 digits rounded just below, at and above their own magnitude, units carried, nested calls (a call as value or as digits argument), wrong arities incl. nested ones; compared with exact integer definitions; both build profiles so debug-only assertions count.",
